@@ -250,3 +250,160 @@ for _fn in ("read_snapshot", "write_snapshot_auto", "load_latest_snapshot"):
     R.fclause("C07", "frame/" + _fn, "custom", SNAP + _fn, fn=reader_keeps_no_state)
 for _fn in ("compute_delta", "apply_delta"):
     R.fclause("C07", "frame/" + _fn, "custom", SD + _fn, fn=reader_keeps_no_state)
+
+
+# ---------------------------------------------------------------- the disk half: read_snapshot / write_snapshot_auto
+# "A delta-mode snapshot written to disk and read back with its baseline present returns the full payload; when the
+# baseline is missing, writer and reader fall back to a full snapshot or report absence instead of returning a wrongly
+# reconstructed state."  Both functions are verified against an abstract snapshot directory:
+#   gfiles : the set of existing paths;  ghdr / gpay : header and payload that _read_header_payload returns for a path
+#   _find_snapshot_file(root, stem)  (assumed contract) -> root/stem.json if it exists, else root/stem.json.zst if it
+#                                                          exists, else None
+#   _read_header_payload(path)       (assumed contract) -> (ghdr[path], gpay[path])
+#   apply_delta / compute_delta      opaque functions `applyd`, `computed` (their law is the codec part above)
+#   _write_lines(p, header, body, ..) (assumed contract) records what is written
+# so the clauses say *which* files are combined, never what the codec does with them.
+from pyvc.jsonmodel import TJSON as _TJ
+if "Json" not in getattr(R.types, "names", {}):
+    try:
+        R.types.declare("Json", _TJ)
+    except Exception:
+        pass
+R.dictshape("C07Hdr", optional={"mode": "str", "etag_to": "str", "delta_of": "str"})
+R.uf("applyd", ["Json", "Json"], "Json")
+R.uf("computed", ["Json", "Json"], "Json")
+# the codec seen from the disk functions: deterministic functions of their two arguments (only for these contracts:
+# the bounded round-trip contracts above interpret the real bodies)
+AD = R.contract(SD + "apply_delta", "C07", verify=False, callee=False, name="apply_delta(as a function)",
+                types={"base": "Json", "delta": "Json"}, returns="Json", modifies=[], pure_result="applyd(base, delta)", raises="none")
+CD = R.contract(SD + "compute_delta", "C07", verify=False, callee=False, name="compute_delta(as a function)",
+                types={"base": "Json", "curr": "Json"}, returns="Json", modifies=[], pure_result="computed(base, curr)", raises="none")
+_GH = {"gfiles": ("Set[str]", "any"), "ghdr": ("Dict[str, Optional[C07Hdr]]", "any"), "gpay": ("Dict[str, Json]", "any")}
+_J = "os_join(root, stem + '.json')"
+_Z = "os_join(root, stem + '.json.zst')"
+FIND = R.contract(
+    SNAP + "_find_snapshot_file", "C07", verify=False, callee=False, name="_find_snapshot_file(assumed)",
+    types={"root": "str", "stem": "str"}, returns="Optional[str]", modifies=[],
+    ensures=[("json-first", "implies(%s in gfiles, not is_none(result) and some(result) == %s)" % (_J, _J)),
+             ("then-zst", "implies(not (%s in gfiles) and %s in gfiles, not is_none(result) and some(result) == %s)" % (_J, _Z, _Z)),
+             ("else-none", "implies(not (%s in gfiles) and not (%s in gfiles), is_none(result))" % (_J, _Z))],
+    raises="none",
+)
+RHP = R.contract(
+    SNAP + "_read_header_payload", "C07", verify=False, callee=False, name="_read_header_payload(assumed)",
+    types={"path": "str"}, returns="Tuple[Optional[C07Hdr], Json]", modifies=[],
+    requires=[("file-exists", "path in gfiles")],
+    ensures=[("header-and-payload-of-that-file", "result[0] == ghdr[path] and result[1] == gpay[path]")],
+    raises="none",
+)
+_HDR_INV = ("delta-headers-carry-both-etags",      # what write_snapshot_auto writes (clause W1 below)
+            "forall((p, 'str'), p in gfiles and not is_none(ghdr[p]) and ('mode' in some(ghdr[p])) and some(ghdr[p])['mode'] == 'delta', "
+            "('delta_of' in some(ghdr[p])) and ('etag_to' in some(ghdr[p])))")
+
+
+def _found(d, stem):
+    return "(os_join(%s, %s + '.json') in gfiles or os_join(%s, %s + '.json.zst') in gfiles)" % (d, stem, d, stem)
+
+
+def _pay(d, stem):
+    """payload (`or {}`) of the file _find_snapshot_file(d, stem) returns"""
+    return ("j_or_empty(gpay[ite(os_join(%s, %s + '.json') in gfiles, os_join(%s, %s + '.json'), os_join(%s, %s + '.json.zst'))])"
+            % (d, stem, d, stem, d, stem))
+
+
+# fact about os.path.join (an uninterpreted function here): joining a non-empty last component never gives ""
+# (the code tests the found path for truthiness)
+_JOIN_AX = ["forall((a, 'str'), True, forall((b, 'str'), len(b) > 0, len(os_join(a, b)) > 0))"]
+_H = "some(ghdr[path])"
+_ISD = "(not is_none(ghdr[path]) and ('mode' in " + _H + ") and " + _H + "['mode'] == 'delta')"
+_BDIR = "ite(is_none(baseline_dir) or len(some(baseline_dir)) == 0, os_dirname(path), some(baseline_dir))"
+_BSTEM = "('snapshot-' + " + _H + "['delta_of'] + '.full')"
+_SSTEM = "('snapshot-' + " + _H + "['etag_to'] + '.full')"
+_EMPTY = "jv(dict())"
+R.contract(
+    SNAP + "read_snapshot", "C07", name="read_snapshot[path given]", callee=False,
+    types={"root": "Optional[str]", "etag_to": "Optional[str]", "baseline_dir": "Optional[str]", "path": "str", "kwargs": "=dict()"},
+    ghost=_GH, funcs={SNAP + "_find_snapshot_file": FIND, SNAP + "_read_header_payload": RHP, SD + "apply_delta": AD}, axioms=_JOIN_AX,
+    requires=[("path-given-and-readable", "len(path) > 0 and path in gfiles"), _HDR_INV],
+    ensures=[
+        ("full-or-legacy-file-returns-its-payload", "implies(not %s, result == j_or_empty(gpay[path]))" % _ISD),
+        ("delta-with-baseline-present-is-reconstructed-from-that-baseline",
+         "implies(%s and %s, result == applyd(%s, j_or_empty(gpay[path])))" % (_ISD, _found(_BDIR, _BSTEM), _pay(_BDIR, _BSTEM))),
+        ("delta-without-baseline-never-reconstructs",
+         "implies(%s and not %s, result == ite(%s, %s, %s))" % (
+             _ISD, _found(_BDIR, _BSTEM), _found("os_dirname(path)", _SSTEM), _pay("os_dirname(path)", _SSTEM), _EMPTY)),
+    ],
+    raises="none",
+    # the etag-addressed half of the function is the other variant
+    unreachable_ok=["root = root or '.'", "delta_path = ", "if delta_path:", "header, payload = _read_header_payload(delta_path)",
+                    "delta_of = (header or {})", "bdir = baseline_dir or root", "base = _find_snapshot_file(bdir, f'snapshot-{delta_of}.full') if",
+                    "if base:", "_, base_payload = _read_header_payload(base)", "from clematis.engine.util.snapshot_delta import apply_delta",
+                    "return apply_delta(base_payload or {}, payload or {})", "logging.warning(", "full_path = ", "if full_path:",
+                    "_, full_payload = ", "return full_payload or {}", "return {}"],
+)
+_ROOT = "ite(is_none(old(root)) or len(some(old(root))) == 0, '.', some(old(root)))"      # `root` is rebound by the code
+_DSTEM = "('snapshot-' + some(old(etag_to)) + '.delta')"
+_FSTEM = "('snapshot-' + some(old(etag_to)) + '.full')"
+_DP = "ite(os_join(%s, %s + '.json') in gfiles, os_join(%s, %s + '.json'), os_join(%s, %s + '.json.zst'))" % (_ROOT, _DSTEM, _ROOT, _DSTEM, _ROOT, _DSTEM)
+_DH = "some(ghdr[" + _DP + "])"
+_HAS_OF = "(not is_none(ghdr[" + _DP + "]) and ('delta_of' in " + _DH + ") and len(" + _DH + "['delta_of']) > 0)"
+_BDIR2 = "ite(is_none(baseline_dir) or len(some(baseline_dir)) == 0, " + _ROOT + ", some(baseline_dir))"
+_BSTEM2 = "('snapshot-' + " + _DH + "['delta_of'] + '.full')"
+_FULL_OR_EMPTY = "ite(%s, %s, %s)" % (_found(_ROOT, _FSTEM), _pay(_ROOT, _FSTEM), _EMPTY)
+R.contract(
+    SNAP + "read_snapshot", "C07", name="read_snapshot[by etag]", callee=False,
+    types={"root": "Optional[str]", "etag_to": "Optional[str]", "baseline_dir": "Optional[str]", "path": "=None", "kwargs": "=dict()"},
+    ghost=_GH, funcs={SNAP + "_find_snapshot_file": FIND, SNAP + "_read_header_payload": RHP, SD + "apply_delta": AD}, axioms=_JOIN_AX,
+    requires=[("etag-given", "not is_none(etag_to)")],
+    ensures=[
+        ("no-delta-file-returns-the-full-file-or-nothing", "implies(not %s, result == %s)" % (_found(_ROOT, _DSTEM), _FULL_OR_EMPTY)),
+        ("delta-with-baseline-present-is-reconstructed-from-that-baseline",
+         "implies(%s and %s and %s, result == applyd(%s, j_or_empty(gpay[%s])))" % (
+             _found(_ROOT, _DSTEM), _HAS_OF, _found(_BDIR2, _BSTEM2), _pay(_BDIR2, _BSTEM2), _DP)),
+        ("delta-without-baseline-falls-back-to-the-full-file-or-nothing",
+         "implies(%s and not (%s and %s), result == %s)" % (_found(_ROOT, _DSTEM), _HAS_OF, _found(_BDIR2, _BSTEM2), _FULL_OR_EMPTY)),
+    ],
+    raises="none",
+    unreachable_ok=["header, payload = _read_header_payload(path)", "if header and header.get('mode') == 'delta':", "etag_to = header.get('etag_to')",
+                    "delta_of = header.get('delta_of')", "bdir = baseline_dir or os.path.dirname(path)",
+                    "base = _find_snapshot_file(bdir, f'snapshot-{delta_of}.full')\n", "sib_full = ", "if sib_full:", "return payload or {}"],
+)
+
+# ---- writer
+R.dictshape("C07WHdr", required={"schema": "str", "mode": "str", "etag_to": "str", "codec": "str", "level": "int"},
+            optional={"etag_from": "str", "delta_of": "str"})
+WL = R.contract(
+    SNAP + "_write_lines", "C07", verify=False, callee=False, name="_write_lines(assumed)",
+    types={"p": "str", "header": "C07WHdr", "body_json": "str", "codec": "str", "level": "int"},
+    raises=["OSError"], modifies=[],
+    effects=["wl_paths.append(p)", "wl_hdrs.append(header)", "wl_bodies.append(body_json)"],
+)
+_WDIR = "dir_path"
+_WBSTEM = "('snapshot-' + some(etag_from) + '.full')"
+_WANT_DELTA = "(delta_mode and not is_none(etag_from) and len(some(etag_from)) > 0 and %s)" % _found(_WDIR, _WBSTEM)
+_CODEC = "ite(compression.lower() == 'zstd', 'zstd', 'none')"
+_EXT = "ite(compression.lower() == 'zstd', '.zst', '')"
+R.contract(
+    SNAP + "write_snapshot_auto", "C07", callee=False,
+    types={"dir_path": "str", "etag_from": "Optional[str]", "etag_to": "str", "payload": "Json", "compression": "str", "level": "int",
+           "delta_mode": "bool"},
+    ghost=dict(_GH, wl_paths=("List[str]", "empty"), wl_hdrs=("List[C07WHdr]", "empty"), wl_bodies=("List[str]", "empty")),
+    funcs={SNAP + "_find_snapshot_file": FIND, SNAP + "_read_header_payload": RHP, SNAP + "_write_lines": WL, SD + "compute_delta": CD},
+    axioms=_JOIN_AX,
+    ensures=[
+        ("exactly-one-file-written", "len(wl_paths) == 1 and len(wl_hdrs) == 1 and len(wl_bodies) == 1 and result[0] == wl_paths[0]"),
+        ("delta-iff-requested-and-baseline-found", "result[1] == %s" % _WANT_DELTA),
+        ("delta-file-names-its-baseline-and-target",
+         "implies(%s, wl_hdrs[0]['mode'] == 'delta' and ('delta_of' in wl_hdrs[0]) and wl_hdrs[0]['delta_of'] == some(etag_from) and "
+         "wl_hdrs[0]['etag_to'] == etag_to and wl_paths[0] == os_join(dir_path, 'snapshot-' + etag_to + '.delta.json' + %s))" % (_WANT_DELTA, _EXT)),
+        ("delta-body-is-the-delta-against-that-baseline",
+         "implies(%s, wl_bodies[0] == json_dumps(computed(%s, payload), sort_keys=True, separators=(',', ':')))" % (_WANT_DELTA, _pay(_WDIR, _WBSTEM))),
+        ("otherwise-a-full-file-with-the-whole-payload",
+         "implies(not %s, wl_hdrs[0]['mode'] == 'full' and wl_hdrs[0]['etag_to'] == etag_to and not ('delta_of' in wl_hdrs[0]) and "
+         "wl_paths[0] == os_join(dir_path, 'snapshot-' + etag_to + '.full.json' + %s) and "
+         "wl_bodies[0] == json_dumps(payload, sort_keys=True, separators=(',', ':')))" % (_WANT_DELTA, _EXT)),
+    ],
+    raises=["OSError"],
+    ensures_exc=[("at-most-one-file-written", "len(wl_paths) <= 1")],
+    unreachable_ok=["compute_delta = None"],      # handler of the local `from ... import compute_delta`: the module is part of the repository
+)
